@@ -16,6 +16,38 @@ from props import _resolver as RS
 from props import _nxops as NX
 
 
+PRELUDES = ['compute_mass', 'rebuild_h_bare', 'sampler', 'other_resolve', 'coarse_resolve']
+
+
+def run_prelude(kind):
+    """an unrelated use of the package in the same process, before the judged resolve (the replay names it)"""
+    import random
+    import pysmiles
+    from cgsmiles.resolve import MoleculeResolver
+    if kind == 'compute_mass':
+        from cgsmiles.pysmiles_utils import compute_mass
+        compute_mass(pysmiles.read_smiles('CCO'))
+    elif kind == 'rebuild_h_bare':
+        from cgsmiles.pysmiles_utils import rebuild_h_atoms
+        g = pysmiles.read_smiles('CC=O', explicit_hydrogen=False)
+        rebuild_h_atoms(g)
+    elif kind == 'sampler':
+        from cgsmiles.sample import MoleculeSampler
+        state = random.getstate()
+        try:
+            sampler = MoleculeSampler.from_fragment_string('{#PEO=[<]COC[>]}', polymer_reactivities={'<': 0.5, '>': 0.5},
+                                                           all_atom=True)
+            sampler.sample(target_weight=150)
+        except Exception:      # noqa: BLE001 - the prelude is only there to leave state behind
+            pass
+        finally:
+            random.setstate(state)
+    elif kind == 'other_resolve':
+        MoleculeResolver.from_string('{[#X][#Y]}.{#X=[$]c1ccccc1,#Y=[$]CC(=O)O}').resolve_all()
+    elif kind == 'coarse_resolve':
+        MoleculeResolver.from_string('{[#X][#Y]}.{#X=[$][#P][#Q],#Y=[$][#R]}', last_all_atom=False).resolve_all()
+
+
 class C02(RS.StepProp):
     id = 'C02'
     level = 'proof'
@@ -95,10 +127,11 @@ class C02(RS.StepProp):
         # histories: the same kind of input after an unrelated public helper ran in this process (compute_mass on a bare
         # pysmiles graph).  They come LAST in the round because a helper that leaves state behind affects all that follows.
         aa_cases = [c for c in out if c.get('kind') == 'step' and c['laa'] and c['level'] == c['s'].count('.{') - 1]
-        for c in aa_cases[:4]:
-            out.append(dict(c, prelude='compute_mass'))
-        out.append({'kind': 'step', 's': '{[#A][#B]}.{#A=[$]CC[$],#B=[$]OC}', 'laa': True, 'legacy': True, 'level': 0,
-                    'prelude': 'compute_mass'})
+        for c in aa_cases[:6]:
+            out.append(dict(c, prelude=rng.choice(PRELUDES)))
+        for pre in PRELUDES:
+            out.append({'kind': 'step', 's': '{[#A][#B]}.{#A=[$]CC[$],#B=[$]OC}', 'laa': True, 'legacy': True, 'level': 0,
+                        'prelude': pre})
         return out
 
     # ---------------------------------------------------------------------------------------------
@@ -111,10 +144,8 @@ class C02(RS.StepProp):
         key = (case['s'], case['laa'], case['legacy'], bool(case.get('rekey')), case.get('prelude'))
 
         def make():
-            if case.get('prelude') == 'compute_mass':
-                import pysmiles
-                from cgsmiles.pysmiles_utils import compute_mass
-                compute_mass(pysmiles.read_smiles('CCO'))
+            if case.get('prelude'):
+                run_prelude(case['prelude'])
             if not case.get('rekey'):
                 return MoleculeResolver.from_string(case['s'], last_all_atom=case['laa'], legacy=case['legacy'])
             import re
@@ -166,7 +197,7 @@ class C02(RS.StepProp):
             return 'skipped:' + str(impl['skip'])[:30]
         if impl.get('exc'):
             return 'raised:%s@%s' % (impl['exc'], RS.STAGES.get(impl['stage']))
-        return '%s:level%d%s%s' % ('all-atom' if impl['aa'] else 'coarse', case['level'], (':rekeyed' if case.get('rekey') else '') + (':after-compute_mass' if case.get('prelude') else ''),
+        return '%s:level%d%s%s' % ('all-atom' if impl['aa'] else 'coarse', case['level'], (':rekeyed' if case.get('rekey') else '') + (':after-' + case['prelude'] if case.get('prelude') else ''),
                                  ':virtual-before-real' if impl.get('class') else '')
 
 
